@@ -218,7 +218,7 @@ def generate(run):
     cases = enumerate_cases(3 if quick else 4)
     cases += literal_cases()
     cases += valueless_cases()
-    nrand = 12000 if quick else 400000
+    nrand = 60000 if quick else 400000
     for i in range(nrand):
         depth = rng.choice([0, 1, 1, 2, 2, 3, 4, 5, 6])
         items = rand_flat(rng, min(depth, 6), rng.randint(1, 6))
